@@ -1160,6 +1160,13 @@ class _DefToLambda(ast.NodeTransformer):
             self.generic_visit(n)
             return n
         body = _strip_doc(n.body)
+        # `if c: return A` + `return B`  /  `if c: return A else: return B`   ->   `return A if c else B`   (c pure; for a local function that is only called)
+        if len(body) == 2 and isinstance(body[0], ast.If) and not body[0].orelse and len(body[0].body) == 1 and isinstance(body[0].body[0], ast.Return) and isinstance(body[1], ast.Return) \
+                and body[0].body[0].value is not None and body[1].value is not None and _is_pure(body[0].test, reads_ok=True):
+            body = [ast.copy_location(ast.Return(value=ast.IfExp(test=body[0].test, body=body[0].body[0].value, orelse=body[1].value)), body[1])]
+        elif len(body) == 1 and isinstance(body[0], ast.If) and len(body[0].body) == 1 and len(body[0].orelse) == 1 and isinstance(body[0].body[0], ast.Return) \
+                and isinstance(body[0].orelse[0], ast.Return) and body[0].body[0].value is not None and body[0].orelse[0].value is not None and _is_pure(body[0].test, reads_ok=True):
+            body = [ast.copy_location(ast.Return(value=ast.IfExp(test=body[0].test, body=body[0].body[0].value, orelse=body[0].orelse[0].value)), body[0])]
         # leading pure single assignments are part of the returned expression: `a = E1; return f(a)` is `return f(E1)`
         env, params = {}, {x.arg for x in n.args.args + n.args.kwonlyargs + n.args.posonlyargs}
         while len(body) > 1 and isinstance(body[0], ast.Assign) and len(body[0].targets) == 1 and isinstance(body[0].targets[0], ast.Name) and body[0].targets[0].id not in params \
@@ -1695,7 +1702,38 @@ class _Small(ast.NodeTransformer):
             out.append(st)
         return out
 
+    @staticmethod
+    def _enumerated(n):
+        """inside `for i, x in enumerate(S): body` (S a plain attribute path / name that the body does not store to, i and x not rebound) `S[i]` is `x`"""
+        it, tg = n.iter, n.target
+        if not (isinstance(it, ast.Call) and isinstance(it.func, ast.Name) and it.func.id == "enumerate" and len(it.args) == 1 and not it.keywords and isinstance(tg, ast.Tuple)
+                and len(tg.elts) == 2 and all(isinstance(e, ast.Name) for e in tg.elts) and _is_path(it.args[0])):
+            return n
+        seq, i_, x_ = txt(it.args[0]), tg.elts[0].id, tg.elts[1].id
+        for b in n.body:
+            for y in ast.walk(b):
+                if isinstance(y, ast.Name) and isinstance(y.ctx, (ast.Store, ast.Del)) and y.id in (i_, x_):
+                    return n
+                if isinstance(y, (ast.Attribute, ast.Subscript)) and isinstance(y.ctx, (ast.Store, ast.Del)) and (txt(y) == seq or txt(getattr(y, "value", y)) == seq):
+                    return n
+
+        class T(ast.NodeTransformer):
+            def visit_Subscript(self, s_):
+                self.generic_visit(s_)
+                if isinstance(s_.ctx, ast.Load) and txt(s_.value) == seq and isinstance(s_.slice, ast.Name) and s_.slice.id == i_:
+                    return ast.copy_location(ast.Name(id=x_, ctx=ast.Load()), s_)
+                return s_
+
+            def visit_Lambda(self, l_):
+                return l_   # (evaluated later: the loop variables may have moved on)
+
+            visit_FunctionDef = visit_Lambda
+
+        n.body = [T().visit(b) for b in n.body]
+        return n
+
     def visit_For(self, n):
+        n = self._enumerated(n)
         # `for t in (E for v in I if c): body`  ->  `for v in I: if c: t = E; body`   (a generator is consumed lazily: the same interleaving; a list only when E is pure)
         n = self.generic_visit(n)
         it = n.iter
